@@ -78,6 +78,7 @@ structure Dns where
   connOpen   : Bool := false      -- environment: a connect was requested and not yet closed
   closing    : Bool := false      -- environment: the firmware closed a requested connection; the SDK may still
                                   -- deliver its disconnect callback (until the next connect)
+  connScript : List Bool := []    -- environment: will the SDK accept the next connection requests (espconn_connect = 0)?
   deriving Repr, DecidableEq
 
 inductive DnsEv
@@ -92,6 +93,7 @@ inductive DnsEv
 inductive DnsObs
   | callback (ip : Option Bytes)
   | connect (server : Nat)
+  | connectRefused
   | sent (hasReq : Bool) (len : Nat)
   | disconnect
   | notArmed
@@ -111,9 +113,15 @@ def result (P : DnsParams) (s : Dns) : Dns × List DnsObs :=
 
 /-- supla_esp_dns__resolve -/
 def doResolve (P : DnsParams) (s : Dns) : Dns × List DnsObs :=
-  ({ s with success := false, ip := [0, 0, 0, 0], timeoutArmed := true, tries := s.tries + 1,
-            connOpen := true, closing := false },
-   [.disconnect, .connect (s.tries % P.servers)])
+  if s.connScript.head? = some false then
+    -- espconn_connect fails at once: nothing is pending and no callback will come; the timeout timer (armed before) goes on
+    ({ s with success := false, ip := [0, 0, 0, 0], timeoutArmed := true, tries := s.tries + 1,
+              connOpen := false, closing := s.connOpen || s.closing, connScript := s.connScript.tail },
+     [.disconnect, .connectRefused])
+  else
+    ({ s with success := false, ip := [0, 0, 0, 0], timeoutArmed := true, tries := s.tries + 1,
+              connOpen := true, closing := false, connScript := s.connScript.tail },
+     [.disconnect, .connect (s.tries % P.servers)])
 
 def step (P : DnsParams) (s : Dns) : DnsEv → Dns × List DnsObs
   | .resolve name mallocOk =>
